@@ -123,7 +123,7 @@ class Check:
         for n in getattr(ctx_or_path, 'notes', []):
             self.assume('model: ' + n)
 
-    def add(self, name, assume, claim, kind='forall', meta=None, key=None, replay=None):
+    def add(self, name, assume, claim, kind='forall', meta=None, key=None, replay=None, fallback_payloads=None):
         """register an obligation.  replay: name of a registered replayer + payload builder (model -> payload)"""
         if isinstance(claim, S.SB):
             claim = claim.n
@@ -134,6 +134,7 @@ class Check:
         ob = solve.Obligation(name, assume, claim, kind, meta, key)
         ob.meta['soft'] = soft
         ob.meta['replay'] = replay
+        ob.meta['fallback_payloads'] = fallback_payloads
         self.obls.append(ob)
         return ob
 
@@ -183,6 +184,20 @@ class Check:
         for ob in todo:
             if ob.refuted and ob.kind != 'probe':
                 self._handle_refuted(ob)
+            elif ob.kind == 'forall' and not ob.holds and ob.meta.get('fallback_payloads'):
+                # solver inconclusive: directed concrete probing of the real code (can only turn 'unknown' into a replayed violation,
+                # never into a pass)
+                rname = ob.meta['replay'][0]
+                for payload in ob.meta['fallback_payloads']:
+                    try:
+                        ok, what = self.replayers[rname](payload)
+                    except Exception as e:
+                        continue
+                    if ok:
+                        self.extra.setdefault('violations_found_by_concrete_probing_after_solver_unknown', []).append(ob.name)
+                        self._classify(ob.key, f'{ob.name}: {what} (solver verdict: {ob.verdict}; found by directed concrete probing)', payload, rname)
+                        ob.verdict = 'sat'
+                        break
 
     def _handle_refuted(self, ob):
         rp = ob.meta.get('replay')
